@@ -79,6 +79,8 @@ class Pkg:
         self.styles = styles_xml()
         self.extra_parts = {}  # name -> bytes
         self.extra_overrides = ""
+        self.workbook_extra = ""  # raw xml after <definedNames> in workbook.xml; "%d" is replaced by the first free rId number
+        self.workbook_rels_extra = ""  # raw <Relationship> elements, same placeholder
 
     def add_si(self, si_xml):
         self.sst.append(si_xml)
@@ -102,6 +104,8 @@ class Pkg:
         rels += '<Relationship Id="rId%d" Type="http://schemas.openxmlformats.org/officeDocument/2006/relationships/styles" Target="styles.xml"/>' % (n + 1)
         rels += '<Relationship Id="rId%d" Type="http://schemas.openxmlformats.org/officeDocument/2006/relationships/sharedStrings" Target="sharedStrings.xml"/>' % (n + 2)
         dn = "<definedNames>%s</definedNames>" % self.defined_names if self.defined_names else ""
+        dn += self.workbook_extra.replace("%d", str(n + 3))
+        rels += self.workbook_rels_extra.replace("%d", str(n + 3))
         z.writestr("xl/workbook.xml", '<?xml version="1.0" encoding="UTF-8" standalone="yes"?><workbook %s><bookViews><workbookView activeTab="0"/></bookViews><sheets>%s</sheets>%s</workbook>' % (NS, sheets_xml, dn))
         z.writestr("xl/_rels/workbook.xml.rels", '<?xml version="1.0" encoding="UTF-8" standalone="yes"?><Relationships xmlns="http://schemas.openxmlformats.org/package/2006/relationships">%s</Relationships>' % rels)
         z.writestr("xl/styles.xml", self.styles)
@@ -648,11 +652,52 @@ def gen_enc_indented(pi):
 # ------------------------------------------------------------------------------------------------
 # family multi: several sheets over ONE shared-string table as other producers write it: duplicate <si> entries,
 # entries no cell uses, sheets that use only the tail of the table (indexes must be taken literally)
-MULTI_CASES = ["dup-adjacent", "dup-far", "unused-head", "unused-middle+dup", "three-sheets-interleaved"]
+MULTI_CASES = ["dup-adjacent", "dup-far", "unused-head", "unused-middle+dup", "three-sheets-interleaved", "shared-pivot-cache"]
+_REL = "http://schemas.openxmlformats.org/officeDocument/2006/relationships"
+_PKG_REL = "http://schemas.openxmlformats.org/package/2006/relationships"
+_MAIN = "http://schemas.openxmlformats.org/spreadsheetml/2006/main"
+_HEAD = '<?xml version="1.0" encoding="UTF-8" standalone="yes"?>'
+
+
+def gen_shared_pivot_cache():
+    """Data sheet + two sheets whose pivot tables are built on ONE pivot cache (what Excel writes when a pivot table is
+    copied to another sheet): the cache definition, its .rels and its records are reachable from both sheets."""
+    p = Pkg()
+    tags = ["multi", "multi:shared-pivot-cache"]
+    for t in ["key", "a", "b"]:
+        p.add_si("<si>%s</si>" % t_el(t))
+    sheets = []
+    rows = '<row r="1"><c r="A1" t="s"><v>0</v></c></row><row r="2"><c r="A2" t="s"><v>1</v></c></row><row r="3"><c r="A3" t="s"><v>2</v></c></row>'
+    p.sheets.append(("Data", sheet_xml(rows), None, None))
+    sheets.append({"name": "Data", "cells": {ckey(1, 1): {"kind": "s", "value": "key", "rich": False, "formula": ""}, ckey(1, 2): {"kind": "s", "value": "a", "rich": False, "formula": ""}, ckey(1, 3): {"kind": "s", "value": "b", "rich": False, "formula": ""}}, "merges": [], "links": {}})
+    for n, name in [(1, "PivotA"), (2, "PivotB")]:
+        rows = '<row r="3"><c r="A3" t="s"><v>0</v></c></row><row r="4"><c r="A4" t="s"><v>1</v></c></row><row r="5"><c r="A5" t="s"><v>2</v></c></row><row r="6"><c r="A6"><v>%d</v></c></row>' % n
+        srels = '<Relationship Id="rId1" Type="%s/pivotTable" Target="../pivotTables/pivotTable%d.xml"/>' % (_REL, n)
+        p.sheets.append((name, sheet_xml(rows), srels, None))
+        sheets.append({"name": name, "cells": {ckey(1, 3): {"kind": "s", "value": "key", "rich": False, "formula": ""}, ckey(1, 4): {"kind": "s", "value": "a", "rich": False, "formula": ""}, ckey(1, 5): {"kind": "s", "value": "b", "rich": False, "formula": ""}, ckey(1, 6): {"kind": "n", "value": str(n), "bits": bits(n), "formula": ""}}, "merges": [], "links": {}})
+        p.extra_parts["xl/pivotTables/pivotTable%d.xml" % n] = (
+            _HEAD + '<pivotTableDefinition xmlns="%s" name="PivotTable%d" cacheId="0" dataCaption="Values" updatedVersion="7" minRefreshableVersion="3" createdVersion="7" indent="0" outline="1" outlineData="1">'
+            '<location ref="A3:A6" firstHeaderRow="1" firstDataRow="1" firstDataCol="1"/><pivotFields count="1"><pivotField axis="axisRow" showAll="0"><items count="3"><item x="0"/><item x="1"/><item t="default"/></items></pivotField></pivotFields>'
+            '<rowFields count="1"><field x="0"/></rowFields><rowItems count="3"><i><x/></i><i><x v="1"/></i><i t="grand"><x/></i></rowItems><colItems count="1"><i/></colItems>'
+            '<pivotTableStyleInfo name="PivotStyleMedium9" showRowHeaders="1" showColHeaders="1" showRowStripes="0" showColStripes="0" showLastColumn="1"/></pivotTableDefinition>') % (_MAIN, n)
+        p.extra_parts["xl/pivotTables/_rels/pivotTable%d.xml.rels" % n] = _HEAD + '<Relationships xmlns="%s"><Relationship Id="rId1" Type="%s/pivotCacheDefinition" Target="../pivotCache/pivotCacheDefinition1.xml"/></Relationships>' % (_PKG_REL, _REL)
+    p.extra_parts["xl/pivotCache/pivotCacheDefinition1.xml"] = (
+        _HEAD + '<pivotCacheDefinition xmlns="%s" xmlns:r="%s" r:id="rId1" refreshedBy="me" refreshedDate="44636.9" createdVersion="7" refreshedVersion="7" minRefreshableVersion="3" recordCount="2">'
+        '<cacheSource type="worksheet"><worksheetSource ref="A1:A3" sheet="Data"/></cacheSource><cacheFields count="1"><cacheField name="key" numFmtId="0"><sharedItems count="2"><s v="a"/><s v="b"/></sharedItems></cacheField></cacheFields></pivotCacheDefinition>') % (_MAIN, _REL)
+    p.extra_parts["xl/pivotCache/_rels/pivotCacheDefinition1.xml.rels"] = _HEAD + '<Relationships xmlns="%s"><Relationship Id="rId1" Type="%s/pivotCacheRecords" Target="pivotCacheRecords1.xml"/></Relationships>' % (_PKG_REL, _REL)
+    p.extra_parts["xl/pivotCache/pivotCacheRecords1.xml"] = _HEAD + '<pivotCacheRecords xmlns="%s" xmlns:r="%s" count="2"><r><x v="0"/></r><r><x v="1"/></r></pivotCacheRecords>' % (_MAIN, _REL)
+    ct = "application/vnd.openxmlformats-officedocument.spreadsheetml"
+    p.extra_overrides = ('<Override PartName="/xl/pivotTables/pivotTable1.xml" ContentType="%s.pivotTable+xml"/><Override PartName="/xl/pivotTables/pivotTable2.xml" ContentType="%s.pivotTable+xml"/>'
+                         '<Override PartName="/xl/pivotCache/pivotCacheDefinition1.xml" ContentType="%s.pivotCacheDefinition+xml"/><Override PartName="/xl/pivotCache/pivotCacheRecords1.xml" ContentType="%s.pivotCacheRecords+xml"/>') % (ct, ct, ct, ct)
+    p.workbook_extra = '<pivotCaches><pivotCache cacheId="0" r:id="rId%d"/></pivotCaches>'
+    p.workbook_rels_extra = '<Relationship Id="rId%%d" Type="%s/pivotCacheDefinition" Target="pivotCache/pivotCacheDefinition1.xml"/>' % _REL
+    return p.build(), {"sheets": sheets, "defined_names": []}, tags
 
 
 def gen_multi(i):
     mc = MULTI_CASES[i]
+    if mc == "shared-pivot-cache":
+        return gen_shared_pivot_cache()
     p = Pkg()
     tags = ["multi", "multi:" + mc]
     if mc == "dup-adjacent":
